@@ -81,10 +81,12 @@ def instrumented_copy(tmp, inject):
         if p.returncode != 0:
             log(p.stdout)
             raise Harness("lock injection failed")
-        log("instrumented copy: " + p.stdout.strip().splitlines()[-1])
-        for l in p.stdout.splitlines():
-            if l.startswith("warning:"):
-                log("  " + l)
+        warn = [l for l in p.stdout.splitlines() if l.startswith("warning:")]
+        mapcalls = [l for l in warn if "map-valued call" in l]
+        log("instrumented copy: " + p.stdout.strip().splitlines()[-1] + (" (%d ranges over map-valued calls left as they are)" % len(mapcalls) if mapcalls else ""))
+        for l in warn:
+            if l not in mapcalls:
+                log("    lockinject " + l)
         return dst
     files = inject
     tool = os.path.join(tmp, "yieldinject")
